@@ -101,7 +101,7 @@ package dns
 //@   ensures bs != nil ==> ret0 == (end - off == 1 && bs[off] == '.')
 //@   pure
 
-//@ func packDomainName [C03 C04 C08]
+//@ func packDomainName [C03 C04 C08 C16]
 //@   callsite "find" findkey: same(arg1, s[compBegin:]) [C04]
 //@   callsite "insert" inskey: same(arg1, s[compBegin:]) [C04]
 //@   requires 0 <= off
@@ -145,7 +145,7 @@ package dns
 //@ iface mapinv.mapLstringJuint16 [C03 C04]
 //@   ensures 0 <= v && v < 16384
 
-//@ func PackDomainName [C03 C04]
+//@ func PackDomainName [C03 C04 C16]
 //@   requires 0 <= off
 //@   writes msg
 //@   modifies MS.mapLstringJint@compression MS.mapLstringJuint16@compression
